@@ -553,10 +553,16 @@ def run(ctx: Ctx) -> None:
     ctx.rule('R08.8', 'bpauli.apply_deformation is the Hadamard on the index set', floor=2)
     ctx.trust('copy(MethodType(bound_method, obj)) re-resolves getattr(obj, name) at copy time (CPython method '
               '__reduce__), modelled explicitly', 'functools.lru_cache returns the computed value')
-    _r081(ctx)
-    _r083(ctx)
-    _r086(ctx)
+    with ctx.part():
+        _r081(ctx)
+    with ctx.part():
+        _r083(ctx)
+    with ctx.part():
+        _r086(ctx)
     from .c06 import cache_key_rule, frozen_rule
-    cache_key_rule(ctx, 'R08.6')
-    frozen_rule(ctx, 'R08.3', 'panqec.codes')
-    _r088(ctx)
+    with ctx.part():
+        cache_key_rule(ctx, 'R08.6')
+    with ctx.part():
+        frozen_rule(ctx, 'R08.3', 'panqec.codes')
+    with ctx.part():
+        _r088(ctx)
